@@ -206,9 +206,15 @@ static vp::Verdict check(const Case &c, vp::Ctx &ctx)
             if (!want) {
                 labels.insert(ttl < 0 ? "add:rejected-negative-ttl" : m.limit == 0 ? "add:rejected-zero-capacity" : "add:rejected-too-big");
                 if (old != m.lru.end()) {
-                    // left open: "the map remains unchanged" vs delete-first
-                    if (map.entries() + 1 == before) { m.erase(old); ctx.excluded("rejected add() removed the old entry of that key (left open)"); }
-                    else if (map.entries() == before) ctx.excluded("rejected add() kept the old entry of that key (left open)");
+                    // An add() supersedes whatever the map held under that key, also when the new value cannot be cached:
+                    // ClpMap::add() deletes the old entry before any "cannot cache this" test other than the zero-capacity one
+                    // (where the map is empty anyway), and says why ("will never be returned by get()").  The header's
+                    // "(the map remains unchanged)" is about the other entries.  A map that kept the superseded value would
+                    // hand out stale data after a failed replacement, so the model erases it and says so at once.
+                    m.erase(old);
+                    labels.insert("add:rejected-replacement-of-cached-key");
+                    if (map.entries() == before)
+                        return vp::fail("clp:rejected-add-left-superseded-value", where + " cost " + std::to_string(cost) + " limit " + std::to_string(m.limit) + " ttl " + std::to_string(ttl));
                 }
             } else {
                 if (old != m.lru.end()) { m.erase(old); labels.insert("add:replaces"); }
